@@ -76,3 +76,11 @@ prop("C17",
                   "set_config_mode is called only after some config_sleep created the wake-up future (the `assert ConfigChange is not None` in the code is taken as its precondition)",
                   "device-list sizes: 0..6 pump-class devices and 0..1 blower (everything GeckoConstants.DEVICES can produce)"],
      explanation="full-table copy incl. completeness of CONFIG_MEMBERS against the class attributes; active <=> any pump/blower on; wake-up as a monitor invariant preserved by config_sleep's prefix and established by set_config_mode")
+
+prop("C06",
+     level="proof",
+     ground=[lexical.c06_lexical],
+     assumptions=["asyncio.Lock is mutually exclusive and FIFO (ASSUMED contract of the library primitive): from it and the proved lexical obligation 'every request transmission is inside async with <protocol>.Lock' follow one-in-flight, arrival-order service and completion of every caller; this inference is not machine-checked",
+                  "asyncio.sleep(d) / asyncio.wait(timeout=d) return within d + J, J = 0.05 s (ASSUMED); the time bound proved is retry_count x (timeout + pause + 2 (poll 0.1 s + J)): the statement's bound is read modulo the polling interval",
+                  "the gates are evaluated when the call arrives; a state change between the gate test and the lock acquisition is not decided (concurrency)"],
+     explanation="wait_for_response and get proved with loop invariants under a ghost clock (attempt accounting, fresh build per attempt, reply only if delivered, time bound); gates; ping timestamp moves only on a delivered reply; lexical lock domination")
